@@ -36,7 +36,7 @@ REQUIRED_MONITORS = ["increasing", "inside_limits", "inside_support", "weights_f
 REQUIRED_BUCKETS = {
     "quick": ["type:gaussian", "type:lognormal", "type:schulz", "type:boltzmann", "type:uniform",
               "type:rectangle", "cut:none", "cut:lower", "cut:upper", "cut:both", "relative", "absolute",
-              "degenerate:zero_width", "degenerate:npts<2", "layer:get_mesh", "layer:sasview", "layer:shared-name-sequence", "layer:set_dispersion-shared-object", "layer:one-setting-changed-sequence", "layer:vector-element", "layer:fewer-than-two-points-with-width", "layer:set_dispersion-zero-width-after-width", "cut:symmetric",
+              "degenerate:zero_width", "degenerate:npts<2", "layer:get_mesh", "layer:sasview", "layer:shared-name-sequence", "layer:set_dispersion-shared-object", "layer:one-setting-changed-sequence", "layer:vector-element", "layer:fewer-than-two-points-with-width", "layer:set_dispersion-zero-width-after-width", "cut:symmetric", "layer:composite-kernel-1d", "layer:composite-kernel-2d",
               "partype:volume", "partype:orientation"],
 }
 REQUIRED_BUCKETS["thorough"] = REQUIRED_BUCKETS["quick"]
@@ -200,8 +200,30 @@ def install_contract():
     _state["installed"] = True
 
 
+_defaults0 = {}
+
+
 def worker_init(tier, seed):
     install_contract()
+    from sasmodels import weights
+    if not _defaults0:
+        for t_, cls in weights.MODELS.items():
+            _defaults0[t_] = dict(cls.default)
+
+
+def check_defaults(rec, where):
+    """A freshly constructed disperser of each type has that type's documented defaults (width 0), whatever was
+    constructed or evaluated before in this process."""
+    from sasmodels import weights
+    for t_, cls in weights.MODELS.items():
+        if t_ == "array" or t_ not in _defaults0:
+            continue
+        fresh = cls().get_pars()
+        want = _defaults0[t_]
+        same = all(fresh.get(k_) == want.get(k_) for k_ in ("npts", "width", "nsigmas")) and dict(cls.default) == want
+        rec.check("fresh_disperser_has_type_defaults", same and want.get("width") == 0,
+                  {"type": t_, "after": where, "fresh": {k_: fresh.get(k_) for k_ in ("npts", "width", "nsigmas")},
+                   "documented": want, "class_default_now": dict(cls.default)})
 
 
 # ---------------------------------------------------------------------------
@@ -282,6 +304,9 @@ def gen_cases(tier, seed):
     for k in range(nseq):
         cases.append({"id": "shared/%02d" % k, "kind": "shared", "k": k, "seed": seed, "group": "shared/%02d" % k,
                       "cost": 2.0})
+    for k, expr in enumerate(COMPOSITES if tier == "quick" else COMPOSITES*4):
+        cases.append({"id": "composite/%02d" % k, "kind": "composite", "k": k, "expr": expr, "seed": seed,
+                      "group": "composite/%02d" % k, "cost": 2.0})
     if tier == "thorough":
         cases.append({"id": "suite/under-contract", "kind": "suite", "group": "suite", "cost": 40})
     return cases
@@ -550,6 +575,7 @@ def run_layer(case, rec):
                   {"model": name, "parameter": pa.name, "via": "SasviewModel.set_dispersion(zero-width disperser) after a "
                    "non-zero width", "points": np.asarray(pts3)[:8], "weights": np.asarray(wts3)[:8], "value": va})
         rec.bucket("layer:set_dispersion-zero-width-after-width")
+    check_defaults(rec, "layer evaluations of " + name)
     rec.observe(model=name, dispersible=npd)
     if npd == 0:
         rec.set_shape((name, "no dispersible parameter"), False)
@@ -627,6 +653,92 @@ def run_shared(case, rec):
                        "expected_points": exp_v[:8]})
 
 
+COMPOSITES = ["cylinder@hardsphere", "ellipsoid@squarewell", "cylinder@hardsphere+sphere", "sphere+cylinder",
+              "core_shell_cylinder@stickyhardsphere", "parallelepiped@hardsphere"]
+
+
+def run_composite(case, rec):
+    """The mesh a composite kernel (product, sum, sum holding a product) is handed by the entry points call_kernel /
+    call_Fq / DirectModel, on 1-D and on 2-D q: every dispersible parameter set up with a width and two or more
+    points has the documented centre and width there, angles only where the data are two-dimensional."""
+    from sasmodels import core as sascore, direct_model, details, data as sdata
+    expr = case["expr"]
+    rng = core.rng_for(case["seed"], PROP, "composite", case["k"])
+    info = sascore.load_model_info(expr)
+    model = sascore.build_model(info, dtype="double", platform="dll")
+    names = [p.name for p in info.parameters.call_parameters]
+    cand = [p for p in info.parameters.call_parameters if p.polydisperse and not getattr(p, "is_control", False)]
+    sizes = [p for p in cand if p.type == "volume"]
+    angles = [p for p in cand if p.type == "orientation"]
+    if not sizes or not angles:
+        rec.count("composite_without_size_or_angle")
+        return
+    seen = []
+    real = details.make_kernel_args
+
+    def spy(kernel, mesh):
+        if kernel.info is info:
+            seen.append([(v, np.array(x, float), np.array(w, float)) for v, x, w in mesh])
+        return real(kernel, mesh)
+
+    for dim in ("1d", "2d"):
+        ps = sizes[int(rng.integers(len(sizes)))]
+        pa = angles[int(rng.integers(len(angles)))]
+        n_s, n_a = int(rng.integers(3, 9)), int(rng.integers(3, 9))
+        rel = float(10**rng.uniform(-2, -0.8))
+        wa = float(rng.uniform(2, 25))
+        va = float(rng.uniform(10, 80))
+        vs = float(ps.default*rng.uniform(0.8, 1.2)) if ps.default > 0 else 20.0
+        pars = {ps.name: vs, ps.name + "_pd": rel, ps.name + "_pd_n": n_s, ps.name + "_pd_nsigma": 2.0,
+                pa.name: va, pa.name + "_pd": wa, pa.name + "_pd_n": n_a,
+                pa.name + "_pd_type": ["gaussian", "rectangle", "uniform"][case["k"] % 3]}
+        pars[pa.name + "_pd_nsigma"] = 1.5 if pars[pa.name + "_pd_type"] == "rectangle" else 2.0
+        q = np.linspace(0.01, 0.2, 5)
+        entry = ["call_kernel", "call_Fq", "DirectModel"][(case["k"] + (dim == "2d")) % 3]
+        if entry == "call_Fq":
+            entry = "call_kernel"          # composite kernels do not offer the amplitude entry
+        seen.clear()
+        direct_model.make_kernel_args = spy
+        try:
+            if entry == "DirectModel":
+                d = sdata.empty_data1D(q) if dim == "1d" else sdata.empty_data2D(np.linspace(-0.1, 0.1, 4))
+                calc = direct_model.DirectModel(d, model)
+                calc(**pars)
+            else:
+                kern = model.make_kernel([q] if dim == "1d" else [q, 0.5*q])
+                getattr(direct_model, entry)(kern, pars)
+                kern.release()
+        finally:
+            direct_model.make_kernel_args = real
+        rec.check("composite_mesh_observed", len(seen) >= 1, {"model": expr, "entry": entry, "dim": dim})
+        if not seen:
+            continue
+        mesh = seen[-1]
+        for p_, val, n_, exp_c, exp_s, active in ((ps, vs, n_s, vs, rel*vs, True), (pa, va, n_a, 0.0, wa, dim == "2d")):
+            v, pts, wts = mesh[names.index(p_.name)]
+            if active:
+                typ = pars.get(p_.name + "_pd_type", "gaussian")
+                if typ == "gaussian":
+                    lo_, hi_ = exp_c - 2.0*exp_s, exp_c + 2.0*exp_s
+                elif typ == "rectangle":
+                    lo_, hi_ = exp_c - 1.5*exp_s, exp_c + 1.5*exp_s       # 1.5 sigma requested, inside sqrt(3) sigma
+                else:
+                    lo_, hi_ = exp_c - exp_s, exp_c + exp_s
+                ok = (len(pts) == n_ and abs(pts[0] - lo_) <= 1e-9*(abs(exp_c) + exp_s)
+                      and abs(pts[-1] - hi_) <= 1e-9*(abs(exp_c) + exp_s) and abs(float(np.sum(wts)) - 1.0) <= 1e-12
+                      and float(v) == float(val))
+                rec.check("model_layer_centre_width", ok,
+                          {"model": expr, "parameter": p_.name, "type": p_.type, "dim": dim, "via": entry,
+                           "distribution": typ, "value": val, "width": exp_s, "npts": n_, "points": pts, "weights": wts,
+                           "expected_range": [lo_, hi_]})
+                rec.set_shape((expr, p_.name, dim, entry), True)
+            # (an angle on 1-D data has no effect on the result; whether the entry point still hands its mesh to a
+            # composite kernel is not part of the property)
+        rec.bucket("layer:composite-kernel-" + dim, "entry:" + entry)
+    if case["k"] < 3:
+        rec.observe(model=expr, size=ps.name, angle=pa.name)
+
+
 def run_suite(case, rec):
     """The repository's own tests with the contract switched on (thorough)."""
     import subprocess, os, sys, json, tempfile
@@ -655,6 +767,8 @@ def run_case(case, rec):
         run_layer(case, rec)
     elif case["kind"] == "shared":
         run_shared(case, rec)
+    elif case["kind"] == "composite":
+        run_composite(case, rec)
     else:
         run_suite(case, rec)
 
